@@ -1019,7 +1019,7 @@ string parse_data_string(const string& s, string* mask, uint64_t flags) {
         } else if (in[1] == 't') {
           value = '\t';
         } else {
-          value = in[1];
+          value = static_cast<uint8_t>(in[1]);
         }
         if (big_endian != host_big_endian) {
           value = bswap16(value);
@@ -1029,7 +1029,7 @@ string parse_data_string(const string& s, string* mask, uint64_t flags) {
         in += 2;
 
       } else {
-        int16_t value = in[0];
+        int16_t value = static_cast<uint8_t>(in[0]);
         if (big_endian != host_big_endian) {
           value = bswap16(value);
         }
